@@ -530,6 +530,25 @@ func (m *basic) T() mat.Matrix { return mat.Transpose{Matrix: m} }
 
 func newBasic(l *logical) basic { return basic{r: l.r, c: l.c, v: append([]float64(nil), l.v...)} }
 
+// basicVal is a user Matrix implemented on a struct VALUE that holds a slice:
+// a legal Matrix whose dynamic type is not comparable with ==.
+type basicVal struct {
+	r, c int
+	v    []float64
+}
+
+func (m basicVal) Dims() (int, int) { return m.r, m.c }
+func (m basicVal) At(i, j int) float64 {
+	if uint(i) >= uint(m.r) {
+		panic(mat.ErrRowAccess)
+	}
+	if uint(j) >= uint(m.c) {
+		panic(mat.ErrColAccess)
+	}
+	return m.v[i*m.c+j]
+}
+func (m basicVal) T() mat.Matrix { return mat.Transpose{Matrix: m} }
+
 // basicVec is a user Vector (column or row shaped).
 type basicVec struct{ basic }
 
@@ -640,6 +659,7 @@ type kind struct {
 	compact  bool // a compact *Dense (the trivial representation)
 	approx   bool // At reproduces the logical value only to rounding (factorizations)
 	special  bool // not part of the general enumeration (used by a dedicated sub-check)
+	unit     bool // the logical value has a unit diagonal (Diag == blas.Unit user types)
 	flavor   flavor
 	trans    string // transposition pattern
 	build    func(b *builder, l *logical) mat.Matrix
@@ -694,6 +714,8 @@ func init() {
 		}})
 	addKind(&kind{name: "basic", fam: "basic", class: cGeneral,
 		build: func(b *builder, l *logical) mat.Matrix { m := newBasic(l); return &m }})
+	addKind(&kind{name: "basicValue", fam: "basic", class: cGeneral, special: true,
+		build: func(b *builder, l *logical) mat.Matrix { return basicVal{l.r, l.c, append([]float64(nil), l.v...)} }})
 	addKind(&kind{name: "Transpose(basic)", fam: "basic", class: cGeneral, trans: "T",
 		build: func(b *builder, l *logical) mat.Matrix {
 			m := newBasic(l.transposed())
@@ -795,6 +817,40 @@ func init() {
 			build: func(b *builder, l *logical) mat.Matrix { return rawTriBandOf(b, l) }})
 		addKind(&kind{name: "Transpose(rawTriBander" + u + ")", fam: "raw", class: obcl, shape: shSquare, trans: "T",
 			build: func(b *builder, l *logical) mat.Matrix { return mat.Transpose{Matrix: rawTriBandOf(b, l.transposed())} }})
+
+		// user types whose raw representation has Diag == blas.Unit: the stored
+		// diagonal is not referenced (sentinels), At(i,i) is 1. untransposeExtract
+		// anticipates them (it does not lift them). Only used by the user-types sub.
+		rawTriUnitOf := func(b *builder, l *logical) *rawTri {
+			m := rawTriOf(b, l)
+			g := b.guards[len(b.guards)-1]
+			off := len(g.data) - len(m.t.Data)
+			for i := 0; i < l.r; i++ {
+				g.data[off+i*m.t.Stride+i] = b.nan()
+			}
+			copy(g.snap, g.data)
+			m.t.Diag = blas.Unit
+			return m
+		}
+		addKind(&kind{name: "rawTriangular" + u + ".unit", fam: "raw", class: cl, shape: shSquare, tri: true, triUpper: upper, special: true, unit: true,
+			build: func(b *builder, l *logical) mat.Matrix { return rawTriUnitOf(b, l) }})
+		addKind(&kind{name: "Transpose(rawTriangular" + u + ".unit)", fam: "raw", class: ocl, shape: shSquare, trans: "T", special: true, unit: true,
+			build: func(b *builder, l *logical) mat.Matrix { return mat.Transpose{Matrix: rawTriUnitOf(b, l.transposed())} }})
+		addKind(&kind{name: "rawTriBander" + u + ".unit", fam: "raw", class: bcl, shape: shSquare, special: true, unit: true,
+			build: func(b *builder, l *logical) mat.Matrix {
+				m := rawTriBandOf(b, l)
+				g := b.guards[len(b.guards)-1]
+				d0 := 0
+				if !upper {
+					d0 = m.t.K
+				}
+				for i := 0; i < l.r; i++ {
+					g.data[i*m.t.Stride+d0] = b.nan()
+				}
+				copy(g.snap, g.data)
+				m.t.Diag = blas.Unit
+				return m
+			}})
 	}
 
 	// --- general band (rectangular allowed)
